@@ -514,43 +514,105 @@ def rule_check_is_pure(db: ProgramDB) -> List[Instance]:
 def rule_retrieve_all_branches(db: ProgramDB) -> List[Instance]:
     """Retrieval returns *each* stored entry that agrees with the lookup.  At one level of the index an entry agrees if it
     binds the key to the looked-up value or does not bind it (wildcard); when the lookup does not bind the key, every entry
-    agrees.  The wildcard branch is therefore one of the branches to follow, never an alternative to the others."""
+    agrees.  The wildcard branch is therefore one of the branches to follow, never an alternative to the others.
+
+    Decided on the control-flow graph of retrieve(), whatever idiom it is written in:
+      (a) from the branch taken when the lookup does NOT bind the current key, every path to an exit goes through a visit of
+          all children of the node (a loop over its items);
+      (b) no path from the entry to an exit descends into the child of the looked-up value without also looking at the
+          wildcard child of the same node (visiting it, or testing that there is none)."""
     out = []
     ic = db.cls("IndexedCache")
     m = ic.methods.get("retrieve")
     if m is None:
         raise AnalysisError("IndexedCache.retrieve not found")
-    wild_names = set()
-    for a in own_nodes(m.node):
-        if isinstance(a, ast.Assign) and isinstance(a.value, ast.Call) and call_attr(a.value) == "get" and a.value.args \
-                and unparse(a.value.args[0]) in ("All", "ALL") and isinstance(a.targets[0], ast.Name):
-            wild_names.add(a.targets[0].id)
-    n = 0
-    # (a) unbound key: exploring all branches must not be the alternative of 'a wildcard exists'
-    for node in own_nodes(m.node):
-        if isinstance(node, ast.If) and any(isinstance(x, ast.Name) and x.id in wild_names for x in ast.walk(node.test)):
-            loops = [l for l in node.orelse for l in ast.walk(l) if isinstance(l, ast.For) and "items()" in unparse(l.iter)]
-            if loops:
-                n += 1
-                out.append(inst("RETRIEVE-ALL-BRANCHES", VIOLATION, m, "IndexedCache.retrieve[unbound key: wildcard instead of all branches]",
-                                "when the lookup does not bind a key and a wildcard entry exists at that level, only the wildcard "
-                                "branch is followed: the entries that bind the key are not returned", line=node.lineno))
-    # (b) bound key: the wildcard branch is consulted only when the concrete value is missing
-    for node in own_nodes(m.node):
-        if isinstance(node, ast.If) and isinstance(node.test, ast.Compare) and isinstance(node.test.ops[0], ast.Is) \
-                and isinstance(node.test.comparators[0], ast.Constant) and node.test.comparators[0].value is None:
-            gets = [c for s_ in node.body for c in ast.walk(s_) if isinstance(c, ast.Call) and call_attr(c) == "get" and c.args
-                    and unparse(c.args[0]) in ("All", "ALL")]
-            if gets:
-                n += 1
-                out.append(inst("RETRIEVE-ALL-BRANCHES", VIOLATION, m, "IndexedCache.retrieve[bound key: wildcard only if concrete missing]",
-                                "when the lookup binds a key, the wildcard branch of that level is followed only if no entry binds "
-                                "the key to the looked-up value: entries that leave the key open are not returned next to it",
-                                line=node.lineno))
-    if n == 0:
-        # all-branches implementations: a loop over (value, All) / over cache.items() without wildcard exclusivity
-        out.append(inst("RETRIEVE-ALL-BRANCHES", HOLDS, m, "IndexedCache.retrieve",
-                        "no level of the walk treats the wildcard branch as an alternative to the concrete ones"))
+    cfg = CFG(m)
+    ap = "assignment" if "assignment" in m.params else m.positional_params[1]
+    # names that hold the looked-up value of the current key, and loop variables ranging over (value, All)
+    looked_up: Set[str] = set()
+    both: Set[str] = set()
+    for x in own_nodes(m.node):
+        if isinstance(x, ast.Assign) and len(x.targets) == 1 and isinstance(x.targets[0], ast.Name) and isinstance(x.value, ast.Subscript) \
+                and unparse(x.value.value) == ap:
+            looked_up.add(x.targets[0].id)
+        if isinstance(x, ast.For) and isinstance(x.target, ast.Name) and isinstance(x.iter, (ast.Tuple, ast.List)) \
+                and any(unparse(e) in ("All", "ALL") for e in x.iter.elts):
+            both.add(x.target.id)
+
+    def child_keys(nd) -> List[str]:
+        """keys under which this node reads a child of a trie: via subscript or .get()"""
+        res = []
+        if nd.ast is None:
+            return res
+        scan = nd.ast
+        if nd.kind in ("test", "for") and hasattr(nd, "stmt") and nd.stmt is not None:
+            scan = nd.stmt.test if nd.kind == "test" and hasattr(nd.stmt, "test") else (nd.stmt.iter if nd.kind == "for" else nd.ast)
+        for x in ast.walk(scan):
+            if isinstance(x, ast.Subscript) and isinstance(x.ctx, ast.Load) and unparse(x.value) != ap and "cache" in unparse(x.value):
+                res.append(unparse(x.slice))
+            elif isinstance(x, ast.Call) and call_attr(x) == "get" and x.args and "cache" in unparse(x.func.value):
+                res.append(unparse(x.args[0]))
+            elif isinstance(x, ast.Compare) and len(x.ops) == 1 and isinstance(x.ops[0], (ast.In, ast.NotIn)) and "cache" in unparse(x.comparators[0]) \
+                    and unparse(x.left) in ("All", "ALL"):
+                res.append(unparse(x.left))          # testing whether there is a wildcard child counts as looking at it
+        return res
+
+    def is_wild(nd) -> bool:
+        return any(k in ("All", "ALL") or k in both for k in child_keys(nd))
+
+    def is_concrete(nd) -> bool:
+        if nd.kind == "test":
+            return False
+        return any(k.startswith(ap + "[") or k in looked_up or k in both for k in child_keys(nd) if k not in ("All", "ALL"))
+
+    def visits_all(nd) -> bool:
+        if nd.kind != "for":
+            return False
+        it = unparse(nd.stmt.iter)
+        return "cache" in it and (it.endswith(".items()") or it.endswith(".values()") or it.endswith(".keys()") or it in ("cache",))
+    exits = {cfg.exit}
+    # (a)
+    tests = [nd for nd in cfg.nodes if nd.kind == "test" and isinstance(nd.stmt, ast.If) and isinstance(nd.stmt.test, ast.Compare)
+             and len(nd.stmt.test.ops) == 1 and isinstance(nd.stmt.test.ops[0], (ast.In, ast.NotIn)) and unparse(nd.stmt.test.comparators[0]) == ap]
+    if not tests:
+        raise AnalysisError("IndexedCache.retrieve: no branch on whether the lookup binds the current key found")
+    for t in tests:
+        unbound_label = "T" if isinstance(t.stmt.test.ops[0], ast.NotIn) else "F"
+        bad = None
+        for e in cfg.succ[t.id]:
+            if e.kind != "n" or e.label != unbound_label:
+                continue
+            first = cfg.nodes[e.dst]
+            if visits_all(first):
+                continue
+            p = cfg.find_path(first.id, lambda nd: nd.id in exits, kinds=("n",), blocked=visits_all)
+            if p is not None or first.id in exits:
+                bad = [e] + (p or [])
+        out.append(inst("RETRIEVE-ALL-BRANCHES", VIOLATION if bad else HOLDS, m, "IndexedCache.retrieve[unbound key: wildcard instead of all branches]",
+                        "when the lookup does not bind a key and a wildcard entry exists at that level, only the wildcard "
+                        "branch is followed: the entries that bind the key are not returned (" + " ".join(cfg.describe_path(bad)[:3]) + ")" if bad else
+                        "when the lookup does not bind a key, every child of the node is visited", line=t.lineno))
+    # (b)
+    conc = [nd for nd in cfg.nodes if is_concrete(nd)]
+    if not conc:
+        raise AnalysisError("IndexedCache.retrieve: no descent into the child of the looked-up value found")
+    bad = None
+    for cn in conc:
+        if is_wild(cn):
+            continue
+        p1 = cfg.find_path(cfg.entry, lambda nd: nd.id == cn.id, kinds=("n",), blocked=is_wild)
+        if p1 is None:
+            continue
+        p2 = cfg.find_path(cn.id, lambda nd: nd.id in exits, kinds=("n",), blocked=is_wild)
+        if p2 is not None:
+            bad = (cn, p1 + p2)
+            break
+    out.append(inst("RETRIEVE-ALL-BRANCHES", VIOLATION if bad else HOLDS, m, "IndexedCache.retrieve[bound key: wildcard only if concrete missing]",
+                    "when the lookup binds a key, the wildcard branch of that level is followed only if no entry binds "
+                    f"the key to the looked-up value: entries that leave the key open are not returned next to it (`{bad[0].src()[:50]}` is reached "
+                    "and left without the wildcard child having been looked at)" if bad else
+                    "the wildcard child is looked at on every path that descends into the child of the looked-up value",
+                    line=bad[0].lineno if bad else m.lineno))
     return out
 
 
